@@ -67,6 +67,9 @@ def opOfRec (r : Rec) : Option (Op Float) :=
   | "dispel" => some (.dispel t (r.nat "status") (r.nat "order") (r.int "count"))
   | "tick" => some (.tick t (r.nat "phase"))
   | "instprop" => some (.instAddProp t (r.nat "uid") (r.nat "p") (r.flt "x"))
+  | "instset" => some (.instSetProp t (r.nat "uid") (r.nat "p") (r.flt "x"))
+  | "instweak" => some (.instWeak t (r.nat "uid") (r.nat "d") (r.bool "on"))
+  | "instdres" => some (.instDres t (r.nat "uid") (r.nat "f") (r.flt "x"))
   | _ => none
 
 def sortStats (l : List (Nat × Float)) : List (Nat × Float) :=
